@@ -411,12 +411,10 @@ func gobDecodeItem(data []byte) (Item, error) {
 	typ := ActivityVocabularyType("")
 	mm, err := gobDecodeObjectAsMap(data)
 	if err == nil {
-		var sTyp []byte
-		sTyp, isObject = mm["type"]
-		if isObject {
+		// a property map is an object, even if it carries neither a type nor an id
+		isObject = true
+		if sTyp, ok := mm["type"]; ok {
 			typ = ActivityVocabularyType(sTyp)
-		} else {
-			_, isObject = mm["id"]
 		}
 	}
 	if isObject {
